@@ -46,10 +46,19 @@ def on_line3(M, x, tol=1e-8):
 # ---------------------------------------------------------------------------------------------------
 
 
+# lines / planes / directions that are NEARLY (1e-3 .. 1e-4 rad) but not exactly axis-parallel or diagonal, still with exact
+# integer coordinates: shortcuts and tolerances for the exactly special case must not fire for them
+NEAR_LINES2 = [(1000, 1, 0), (1000, 1, -500), (1, 1000, 3), (1000, -1, 2), (1000, 999, 1), (-999, 1000, 0), (10000, 1, 7), (1, -10000, -20)]
+NEAR_PLANES = [(1000, 1, 0, 0), (1000, 1, 0, -300), (1, 0, 1000, 2), (0, 1000, -1, 1), (1000, 999, 1, 0), (1, 1, 1000, -5), (10000, 0, 1, 3)]
+NEAR_DIRS3 = [(1000, 1, 0), (1, 0, 1000), (0, 1000, -1), (1000, 999, 1), (1, 1, 1000), (1000, 1000, 1)]
+
+
 def enum_2d(tier, seed):
     for h in lattice(3, 3 if tier == "thorough" else 2):
         if any(h[:2]):
             yield h
+    for h in NEAR_LINES2:
+        yield h
 
 
 @family("C10", "line2d_constructions", enum_2d)
@@ -145,6 +154,8 @@ def enum_plane(tier, seed):
     for h in lattice(4, 2 if tier == "thorough" else 1):
         if any(h[:3]):
             yield h
+    for h in NEAR_PLANES:
+        yield h
 
 
 @family("C10", "plane_constructions", enum_plane)
@@ -224,6 +235,9 @@ def enum_line3(tier, seed):
     bases = [(0, 0, 0), (1, 0, -1), (-1, 1, 1)] if tier == "quick" else aff(3, 1)
     for u in bases:
         for w in dirs:
+            yield (u, w)
+    for u in [(0, 0, 0), (1, 0, -1), (-1, 1, 1)]:
+        for w in NEAR_DIRS3:
             yield (u, w)
 
 
@@ -337,7 +351,9 @@ def case_pred(ctx, cfg):
     ctx.state(tuple(cfg))
     if kind in ("is_perpendicular:lines2d", "is_parallel:lines2d"):
         H = [h for h in lattice(3, 1) if any(h[:2])]
-        for h1, h2 in itertools.product(H, repeat=2):
+        # + pairs that are nearly (1e-3, 1e-4 rad) but not exactly parallel / perpendicular, and exactly so with large entries
+        near = [((1000, 1, 0), (1000, 0, 3)), ((1000, 1, 0), (0, 1, 2)), ((1000, 1, 2), (-1, 1000, 0)), ((1000, 1, 2), (-1, 999, 0)), ((1000, 999, 0), (1000, 1000, 1)), ((10000, 1, 5), (1, 0, 0)), ((10000, 1, 5), (-1, 10000, 0)), ((1, 1, 0), (1000, -999, 4)), ((1, 1, 0), (-1000, 1000, 4)), ((3000, 4000, 1), (4000, -3000, 7)), ((3000, 4000, 1), (4001, -3000, 7))]
+        for h1, h2 in list(itertools.product(H, repeat=2)) + near + [(b, a) for a, b in near]:
             if X.irank([list(h1), list(h2)]) < 2:
                 continue
             l, m = G.Line(np.array(h1, dtype=float)), G.Line(np.array(h2, dtype=float) * -2)
@@ -368,7 +384,8 @@ def case_pred(ctx, cfg):
         return
     if kind in ("is_perpendicular:planes", "is_parallel:planes"):
         N = [n for n in lattice(3, 1)]
-        for n1, n2 in itertools.product(N, repeat=2):
+        nearp = [((1000, 1, 0), (1000, 0, 0)), ((1000, 1, 0), (0, 0, 1)), ((1000, 1, 0), (-1, 1000, 0)), ((1000, 1, 0), (-1, 999, 5)), ((1, 1, 1000), (1, 1, 999)), ((1, 1, 1000), (1000, 0, -1)), ((1, 1, 1000), (1000, 1, -1)), ((2000, 2, 0), (1000, 1, 0)), ((3000, 0, 4000), (4000, 5, -3000))]
+        for n1, n2 in list(itertools.product(N, repeat=2)) + nearp + [(b, a) for a, b in nearp]:
             prop = X.irank([list(n1), list(n2)]) < 2
             for c1, c2 in ((0, 0), (1, -1)):
                 e1, e2 = G.Plane(np.array(list(n1) + [c1], dtype=float)), G.Plane(np.array(list(n2) + [c2], dtype=float) * 3)
@@ -390,8 +407,9 @@ def case_pred(ctx, cfg):
         return
     if kind == "is_perpendicular:lines3d":
         D = [d for d in lattice(3, 1)]
+        neard = [((1000, 1, 0), (-1, 1000, 0)), ((1000, 1, 0), (-1, 999, 0)), ((1000, 1, 0), (0, 0, 1)), ((1, 1, 1000), (1000, 0, -1)), ((1, 1, 1000), (1000, 1, -1)), ((3000, 0, 4000), (4000, 5, -3000)), ((3000, 0, 4000), (4000, 0, -3001))]
         for o in [(0, 0, 0), (1, 2, -1)]:
-            for d1, d2 in itertools.product(D, repeat=2):
+            for d1, d2 in list(itertools.product(D, repeat=2)) + neard + [(b, a) for a, b in neard]:
                 if X.irank([list(d1), list(d2)]) < 2:
                     continue
                 l = G.Line(G.Point(*o), G.Point(np.array(list(d1) + [0], dtype=float)))
